@@ -132,6 +132,7 @@ def main(out_path=None):
     nterm = len(fe_terms) + 1
     L = []
     L.append("import Gocc.Model.Validate")
+    L.append("import Gocc.Model.ValidateC")
     L.append("/- GENERATED by tools/gen_frontend.py from /repo (internal/frontend/parser/tables.go via the compiled driver,")
     L.append("   spec/gocc2.ebnf via an independent reader).  Do not edit.  Token type = front-end type + 1. -/")
     L.append("namespace Gocc.Gen")
@@ -187,6 +188,29 @@ def main(out_path=None):
     L.append("/-- item (p, d, la) is encoded as (16*p + d)*64 + la -/")
     L.append("def feCertLACodes : List (List Nat) := [\n" + ",\n".join("  [" + ", ".join(str((16 * p + d) * 64 + la) for p, d, la in c) + "]" for c in certla) + "]")
     L.append("def feCertLA : Array (List (Nat × Nat × Nat)) := (feCertLACodes.map fun l => l.map fun c => (c / 64 / 16, c / 64 % 16, c % 64)).toArray")
+    # nullable / FIRST certificate (untrusted; `firstOk` re-checks that it is closed under the grammar rules)
+    nullable, first = set(), set()
+    changed = True
+    while changed:
+        changed = False
+        for h, b in gprods:
+            allnull = True
+            for x in b:
+                if x in nt_idx:
+                    for (B, a2) in list(first):
+                        if B == nt_idx[x] and (nt_idx[h], a2) not in first:
+                            first.add((nt_idx[h], a2)); changed = True
+                    if nt_idx[x] not in nullable:
+                        allnull = False
+                        break
+                else:
+                    if (nt_idx[h], term_idx.get(x, 0)) not in first:
+                        first.add((nt_idx[h], term_idx.get(x, 0))); changed = True
+                    allnull = False
+                    break
+            if allnull and nt_idx[h] not in nullable:
+                nullable.add(nt_idx[h]); changed = True
+    L.append("def feFirst : FirstCert := { nullable := [%s], first := [%s] }" % (", ".join(map(str, sorted(nullable))), ", ".join("(%d, %d)" % x for x in sorted(first))))
     L.append("end Gocc.Gen")
     text = "\n".join(L) + "\n"
     old = open(out_path).read() if os.path.exists(out_path) else None
